@@ -70,7 +70,9 @@ def main():
 
     # II.8 notes
     out.append("## II.8 Per-property notes (as built)\n")
-    for q in sorted(glob.glob(os.path.join(ROOT, "notes", "C[0-9][0-9].md"))):
+    for q in sorted(glob.glob(os.path.join(ROOT, "notes", "C[0-9][0-9].md"))) + [os.path.join(ROOT, "notes", "SKEL.md")]:
+        if not os.path.exists(q):
+            continue
         pid = os.path.basename(q)[:-3]
         body = open(q).read().strip()
         body = re.sub(r"(?m)^(#+) ", lambda mm: "#" * min(6, len(mm.group(1)) + 2) + " ", body)
